@@ -260,6 +260,12 @@ class Sim:
                 return
             if kind == "value":
                 fut.set_result(payload)
+            elif kind == "lazy":
+                # the value is built only now, so nothing inside it exists before delivery
+                try:
+                    fut.set_result(payload())
+                except Exception as exc:  # noqa: BLE001
+                    fut.set_exception(exc)
             else:
                 fut.set_exception(payload)
 
